@@ -815,6 +815,75 @@ Proof.
 Qed.
 
 (* ------------------------------------------------------------------------------------------ *)
+(** * nt::write_term / write_triple / serialize_triples: two frames per level of quotation,     *)
+(**   nothing per statement, nothing per byte                                                  *)
+(* ------------------------------------------------------------------------------------------ *)
+Lemma nt_term_spec : forall t,
+  res (nt_term_c t) = nt_term_p t /\
+  (2 + 2 * nesting t <= depth (nt_term_c t) <= 3 + 2 * nesting t)%nat.
+Proof.
+  induction t as [s|s|l d|l g|s [Is1 Is2] p [Ip1 Ip2] o [Io1 Io2]|s].
+  - split; [reflexivity|cbn; lia].
+  - split; [reflexivity|cbn; lia].
+  - cbn [nt_term_c nt_term_p nesting]. unfold write_all_c.
+    rewrite res_call, depth_call, !res_bind, !depth_bind, res_leaf, depth_leaf.
+    rewrite quoted_string_loop_erasure, quoted_string_loop_depth.
+    destruct (str_eqb d xsd_string).
+    + rewrite !res_bind, !depth_bind, !res_leaf, !depth_leaf, res_ret, depth_ret.
+      split; [reflexivity|cbn; lia].
+    + rewrite !res_bind, !depth_bind, !res_leaf, !depth_leaf, res_ret, depth_ret.
+      split; [reflexivity|cbn; lia].
+  - cbn [nt_term_c nt_term_p nesting]. unfold write_all_c.
+    rewrite res_call, depth_call, !res_bind, !depth_bind, !res_leaf, !depth_leaf.
+    rewrite quoted_string_loop_erasure, quoted_string_loop_depth, res_ret, depth_ret.
+    split; [reflexivity|cbn; lia].
+  - cbn [nt_term_c nt_term_p nesting]. unfold write_all_c.
+    rewrite res_call, depth_call, !res_bind, !depth_bind, !res_leaf, !depth_leaf.
+    rewrite res_call, depth_call, !res_bind, !depth_bind, !res_leaf, !depth_leaf, !res_ret, !depth_ret.
+    rewrite Is1, Ip1, Io1. split; [reflexivity|lia].
+  - split; [reflexivity|cbn; lia].
+Qed.
+Theorem nt_term_erasure t : res (nt_term_c t) = nt_term_p t.
+Proof. apply nt_term_spec. Qed.
+Theorem nt_term_depth t : (2 + 2 * nesting t <= depth (nt_term_c t) <= 3 + 2 * nesting t)%nat.
+Proof. apply nt_term_spec. Qed.
+
+Lemma nt_triple_spec : forall t,
+  res (nt_triple_c t) = nt_triple_p t /\ (depth (nt_triple_c t) <= 4 + 2 * stmt_nesting t)%nat.
+Proof.
+  intros [[s p] o]. cbn [nt_triple_c nt_triple_p stmt_nesting]. unfold write_all_c.
+  rewrite res_call, depth_call, !res_bind, !depth_bind, !res_leaf, !depth_leaf, res_ret, depth_ret.
+  rewrite !nt_term_erasure.
+  pose proof (nt_term_depth s). pose proof (nt_term_depth p). pose proof (nt_term_depth o).
+  split; [reflexivity|lia].
+Qed.
+Lemma nt_doc_body_spec : forall ts,
+  res (nt_doc_body ts) = nt_doc_p ts /\ (depth (nt_doc_body ts) <= 5 + 2 * doc_nesting ts)%nat.
+Proof.
+  induction ts as [|t r [I1 I2]]; [split; [reflexivity|cbn; lia]|].
+  cbn [nt_doc_body nt_doc_p flat_map doc_nesting]. unfold write_all_c.
+  rewrite !res_bind, !depth_bind, res_call, depth_call, !res_bind, !depth_bind, !res_leaf, !depth_leaf, !res_ret, !depth_ret.
+  destruct (nt_triple_spec t) as [T1 T2]. rewrite T1, I1.
+  split; [reflexivity|lia].
+Qed.
+(* the document: the concatenation of the lines; the depth does not mention the number of
+   statements nor the length of any string *)
+Theorem nt_doc_erasure ts : res (nt_doc_c ts) = nt_doc_p ts.
+Proof. unfold nt_doc_c. rewrite !res_call. apply nt_doc_body_spec. Qed.
+Theorem nt_doc_depth ts : (depth (nt_doc_c ts) <= 7 + 2 * doc_nesting ts)%nat.
+Proof. unfold nt_doc_c. rewrite !depth_call. pose proof (proj2 (nt_doc_body_spec ts)). lia. Qed.
+(* and the nesting is really needed: a term quoted k deep takes at least 2k frames *)
+Fixpoint quote_n (k : nat) : term :=
+  match k with O => Iri [] | S k' => Triple (quote_n k') (Iri []) (Iri []) end.
+Lemma quote_n_nesting k : nesting (quote_n k) = k.
+Proof. induction k as [|k IH]; [reflexivity|]. cbn [quote_n nesting]. rewrite IH. cbn. lia. Qed.
+Theorem nt_term_depth_needs_nesting : forall c : nat, exists t, (depth (nt_term_c t) > c)%nat.
+Proof.
+  intros c. exists (quote_n c). pose proof (nt_term_depth (quote_n c)) as H.
+  rewrite quote_n_nesting in H. lia.
+Qed.
+
+(* ------------------------------------------------------------------------------------------ *)
 (** * The property on the model                                                                *)
 (* ------------------------------------------------------------------------------------------ *)
 (* with the patches: at most four frames plus what the property allows (nesting of the data,
